@@ -147,7 +147,8 @@ def _gen(rng, tier):
     ex = common.warmup_extra(ast)
     n = int(h) + (int(ex) if ex != float('inf') else 0) + rng.randint(1, 16 if big else 10) if h != float('inf') else 5
     data = world.gen_trace(rng, vars_, n, style=('plateau' if medium_windows and rng.random() < 0.6 else None))
-    return {'vars': vars_, 'ast': ast, 'text': text, 'subspecs': subspecs, 'n': n, 'data': data, 'notation': notation,
+    return {'repastify_at': (rng.randrange(1, n) if n > 1 and rng.random() < 0.1 else None),
+            'vars': vars_, 'ast': ast, 'text': text, 'subspecs': subspecs, 'n': n, 'data': data, 'notation': notation,
             'times': units.stamps(notation, n)}
 
 
@@ -179,6 +180,11 @@ def run(sc):
     outs = []
     for i in range(n):
         try:
+            if sc.get('repastify_at') == i:
+                # pastify() called again in the middle of the stream: the specification has no future operator any more, so
+                # this must not change anything - the monitor's memory included
+                M.api('pastify', mon.pastify)
+                r.faults['pastify_again_mid_stream'] += 1
             outs.append(M.dt_update(mon, times[i], [(v, data[v][i]) for v in sc['vars']]))
             r.api_calls += 1
         except M.ApiCrash as e:
